@@ -678,7 +678,7 @@ fn encode_genotype_str(genotype: &str) -> io::Result<Vec<i8>> {
                 .parse()
                 .map_err(|e| io::Error::new(io::ErrorKind::InvalidInput, e))?;
 
-            (j + 1) << 1
+            encode_allele_position(j)?
         };
 
         if is_phased {
@@ -705,13 +705,21 @@ fn encode_genotype_str(genotype: &str) -> io::Result<Vec<i8>> {
     Ok(values)
 }
 
+// `(position + 1) << 1` must fit in the positive range of an `i8`.
+fn encode_allele_position(position: i8) -> io::Result<i8> {
+    position
+        .checked_add(1)
+        .and_then(|n| n.checked_mul(2))
+        .ok_or_else(|| io::Error::new(io::ErrorKind::InvalidInput, "invalid allele position"))
+}
+
 fn encode_genotype(genotype: &dyn Genotype) -> io::Result<Vec<i8>> {
     fn encode(position: Option<usize>, phasing: Phasing) -> io::Result<i8> {
         let mut n = if let Some(position) = position {
             let i = i8::try_from(position)
                 .map_err(|e| io::Error::new(io::ErrorKind::InvalidData, e))?;
 
-            (i + 1) << 1
+            encode_allele_position(i)?
         } else {
             0
         };
